@@ -248,7 +248,13 @@ func (r *Run) Guard(work string, index int, rule string, c any, f func()) (panic
 	defer func() {
 		if p := recover(); p != nil {
 			panicked = true
-			frame := TopRepoFrame(debug.Stack())
+			stack := debug.Stack()
+			frame := TopRepoFrame(stack)
+			if frame == "unknown" {
+				// no frame of the code under test on the panicking stack: the harness itself is broken, which is not a verdict
+				r.Inconclusive("harness panic in %s[%d] (%s): %v | %s", work, index, rule, p, Clip(strings.ReplaceAll(string(stack), "\n", " / "), 900))
+				return
+			}
 			r.Violate(work, index, rule+":panic@"+frame, fmt.Sprintf("panic: %v at %s", p, frame), c)
 		}
 	}()
